@@ -18,7 +18,7 @@ VARIABLE x
 
 WorkloadSeq == <<"aes", "atax", "bfs", "bicg", "bitonicsort", "concurrentkernel", "concurrentworkload", "conv2d",
                 "fastwalshtransform", "fft", "fir", "floydwarshall", "im2col", "kmeans", "matrixmultiplication",
-                "matrixtranspose", "memcopy", "nbody", "nw", "pagerank", "relu", "simpleconvolution", "spmv",
+                "matrixtranspose", "memcopy", "nbody", "nw", "overlapcopy", "pagerank", "relu", "simpleconvolution", "spmv",
                 "stencil2d", "vectoradd", "xor">>
 ASSUME SeqSet(WorkloadSeq) = Workloads
 WIdx(w) == CHOOSE i \in 1..Len(WorkloadSeq) : WorkloadSeq[i] = w
